@@ -31,6 +31,20 @@ def lib():
         sys.path.insert(1, REPO)
     os.environ.setdefault("MPLBACKEND", "Agg")
     ns = types.SimpleNamespace()
+    if os.environ.get("VERIF_IMPORT_STYLE") == "package":
+        # the documented way for installed users: `from quatica.solver import ...` (the second interpreter of
+        # harness/altinterp.py runs every check like this; the tests of the repository use the flat style)
+        sys.path.remove(qdir)
+        sys.path.insert(0, REPO)
+        pk = importlib.import_module("quatica")
+        if not os.path.realpath(pk.__file__).startswith(os.path.realpath(REPO) + os.sep):
+            raise ImportError("package import resolved to %s, not to the tree under test" % pk.__file__)
+        for nm, path in (("utils", "quatica.utils"), ("solver", "quatica.solver"), ("tensor", "quatica.tensor"), ("qslst", "quatica.qslst"),
+                         ("data_gen", "quatica.data_gen"), ("LU", "quatica.decomp.LU"), ("qsvd", "quatica.decomp.qsvd"), ("eigen", "quatica.decomp.eigen"),
+                         ("tridiag", "quatica.decomp.tridiagonalize"), ("hess", "quatica.decomp.hessenberg"), ("schur", "quatica.decomp.schur")):
+            setattr(ns, nm, importlib.import_module(path))
+        _L = ns
+        return ns
     ns.utils = importlib.import_module("utils")
     ns.solver = importlib.import_module("solver")
     ns.tensor = importlib.import_module("tensor")
